@@ -361,6 +361,7 @@ func (fr *frame) chanSend(chv Value, v Value) {
 	if ch.closed {
 		in.goPanicStr("send on closed channel")
 	}
+	in.hbAcquire(chanSlots{ch}) // a buffered channel used as a semaphore: the receive that freed the slot happens before this send
 	ch.buf = append(ch.buf, v)
 	in.hbRelease(ch)
 	in.schedPoint("send")
@@ -375,6 +376,7 @@ func (fr *frame) chanRecv(chv Value, commaOk bool, t types.Type) Value {
 	in.schedPoint("recv")
 	in.block(func() bool { return len(ch.buf) > 0 || ch.closed }, "chan receive")
 	in.hbAcquire(ch)
+	in.hbRelease(chanSlots{ch})
 	var et types.Type
 	if commaOk {
 		et = t.(*types.Tuple).At(0).Type()
@@ -446,6 +448,7 @@ func (fr *frame) doSelect(x *ssa.Select) Value {
 		if i == k {
 			ch := fr.get(st.Chan).(*chanV)
 			in.hbAcquire(ch)
+			in.hbRelease(chanSlots{ch})
 			if len(ch.buf) > 0 {
 				res = append(res, ch.buf[0])
 				ch.buf = ch.buf[1:]
